@@ -118,6 +118,25 @@ Definition publish_spec (S : name -> Prop) (mandatory : bool) (acts : list pub_a
   ((exists q, S q) -> ~ In PReturn acts) /\
   ((forall q, ~ S q) -> (In PReturn acts <-> mandatory = true) /\ In PConfirm acts).
 
+(* ------------------------------------------------------------------ binding maintenance *)
+(* A binding is in effect exactly when the last operation that concerns it is a bind.
+   [same] is the identity of bindings (queue, exchange, routing key, arguments);
+   the list of operations is given latest first. *)
+Fixpoint bound_after (same : binding -> binding -> bool) (latest_first : list bl_op) (b : binding) : bool :=
+  match latest_first with
+  | [] => false
+  | BAppend b' :: earlier => if same b' b then true else bound_after same earlier b
+  | BRemove b' :: earlier => if same b' b then false else bound_after same earlier b
+  | BRemoveQueue q :: earlier => if bytes_eqb (b_queue b) q then false else bound_after same earlier b
+  end.
+
+(* no binding is held twice: no two entries are the same binding *)
+Fixpoint no_equal_pair (same : binding -> binding -> bool) (bs : list binding) : Prop :=
+  match bs with
+  | [] => True
+  | b :: t => (forall x, In x t -> same b x = false) /\ no_equal_pair same t
+  end.
+
 (* ------------------------------------------------------------------ link to the code's facts *)
 From GMQ Require Import Route.Cfg.
 
